@@ -16,9 +16,16 @@ import (
 func vh_C18_L1_rejected_writes_no_effect() {
 	il := vPick(2) == 1
 	a, b := vPair(vAssocOpts{interleaving: il, pickTSN: true, blockWrite: vPick(2) == 1})
-	a.maxMessageSize = 4
+	limitFirst := vPick(2) == 1 // the limit is set before the stream exists, or lowered afterwards
+	if limitFirst {
+		a.SetMaxMessageSize(4)
+	}
 	s, err := a.OpenStream(1, PayloadTypeWebRTCBinary)
 	vassert(err == nil, "open stream")
+	if !limitFirst {
+		a.SetMaxMessageSize(4)
+	}
+	vassert(a.MaxMessageSize() == 4, "the limit is in force")
 	unordered := vPick(2) == 1
 	s.SetReliabilityParams(unordered, ReliabilityTypeReliable, 0)
 	ssn, omid, umid := s.sequenceNumber, s.nextOrderedMID, s.nextUnorderedMID
@@ -128,6 +135,7 @@ func vh_C18_L4_read_deadline() {
 	s := a.streams[3]
 	vassert(s != nil, "stream exists")
 	buf := make([]byte, 8)
+	small := vPick(2) // a too-small read uses a buffer of one byte, or of none at all
 	if !hasMsg && vPick(2) == 1 {
 		// a reader is already blocked on the empty stream when a deadline that has already
 		// passed is set (the SetReadDeadline(time.Now()) idiom): it must be released
@@ -147,7 +155,7 @@ func vh_C18_L4_read_deadline() {
 		vassert(errors.Is(s.readErr, ErrReadDeadlineExceeded), "the deadline error is posted for readers")
 	case 1: // a too-small read first: the message stays, the deadline stays armed
 		if hasMsg {
-			n, _, rerr := s.ReadSCTP(buf[:1])
+			n, _, rerr := s.ReadSCTP(buf[:small])
 			vassert(n == 2 && errors.Is(rerr, io.ErrShortBuffer), "short-buffer error reporting the size needed")
 			vassert(s.readTimeoutCancel != nil, "a short read leaves the deadline armed")
 		}
@@ -189,7 +197,7 @@ func vh_C18_L4_read_deadline() {
 		vRunSpawned()
 		vassert(errors.Is(s.readErr, want) && !errors.Is(s.readErr, ErrReadDeadlineExceeded), "a deadline that passes after end-of-file or teardown does not replace that error")
 		if hasMsg {
-			n, _, rerr := s.ReadSCTP(buf[:1])
+			n, _, rerr := s.ReadSCTP(buf[:small])
 			vassert(n == 2 && errors.Is(rerr, io.ErrShortBuffer), "a too-small read of data received before the end reports the short buffer, not the terminal error")
 			n, _, rerr = s.ReadSCTP(buf)
 			vassert(n == 2 && rerr == nil, "data received before the end is still read first")
@@ -203,7 +211,7 @@ func vh_C18_L4_read_deadline() {
 	}
 	// the deadline has passed: reads return instead of blocking, data first
 	if hasMsg {
-		ns, _, serr := s.ReadSCTP(buf[:1])
+		ns, _, serr := s.ReadSCTP(buf[:small])
 		vassert(ns == 2 && errors.Is(serr, io.ErrShortBuffer), "a too-small read after the deadline still reports the short buffer and keeps the message")
 		vMustNotBlock("a read with data available returns")
 		n, _, rerr := s.ReadSCTP(buf)
@@ -211,7 +219,7 @@ func vh_C18_L4_read_deadline() {
 		vassert(n == 2 && rerr == nil, "the message that arrived before the deadline is not lost")
 	}
 	vMustNotBlock("a read on an empty stream returns at the deadline instead of blocking")
-	n, _, rerr := s.ReadSCTP(buf)
+	n, _, rerr := s.ReadSCTP(buf[:8*small]) // into a buffer of any size, also an empty one
 	vMayBlock()
 	vassert(n == 0 && errors.Is(rerr, ErrReadDeadlineExceeded), "deadline error, no duplicate of the message")
 	vassert(errors.Is(rerr, os.ErrDeadlineExceeded), "recognisable as os.ErrDeadlineExceeded")
